@@ -275,6 +275,12 @@ class SimTransport(asyncio.Transport):
     def write(self, data):
         if not data:
             return
+        if self.fail_next_write is not None:
+            # injected failing system call: this write raises synchronously, and the connection is broken from here on
+            exc, self.fail_next_write = self.fail_next_write, None
+            self.net.count("write_raised")
+            self._force_close(exc)
+            raise exc
         if self._conn_lost or self._closing:
             self.writes_after_close += 1
             self.net.count("write_after_close")
